@@ -84,7 +84,14 @@ def handleStep (f : List String) : String × String × String :=
       let j := if lk != "inc=0,panic=0" then s!"lookup-broken:{lk}" :: j else j
       -- readers hold snapshots sharing token storage with the replica's value: a merge must neither
       -- change an earlier snapshot nor leave a long-lived client answering differently from a fresh one
-      let j := if al != "alias=0,snapmut=0" then s!"reader-sees-broken-index:{al}" :: j else j
+      -- likewise a sub-ring (ShuffleShard / ShuffleShardWithLookback / GetSubringForOperationStates) that a
+      -- caller obtained BEFORE an update and still holds keeps answering from its own snapshot: the answers
+      -- it gave when obtained, never inconsistent token information, never a panic
+      let alf := al.splitOn ","
+      let readerOK := alf.take 2 == ["alias=0", "snapmut=0"]
+      let heldOK := alf.drop 2 == ["heldinc=0", "heldchg=0"]
+      let j := if !readerOK then s!"reader-sees-broken-index:{",".intercalate (alf.take 2)}" :: j else j
+      let j := if !heldOK then s!"held-subring-sees-later-update:{"+".intercalate (alf.drop 2)}" :: j else j
       let acc := (C03.normalize other).foldl C03.stepEntry { this := this, updated := [], tokCh := false }
       let resolved := acc.tokCh && C03.conflictsExist acc.this
       let tags := s!"cas={cas} resolved={resolved} prewf={pre} chg={m.change.isSome} n={min this.length 4}x{min other.length 4}"
